@@ -497,6 +497,14 @@ class Interp(object):
             return a is b
         if isinstance(a, bool) and isinstance(b, bool):
             return a == b
+        if isinstance(a, Closure) and isinstance(b, Closure):
+            if a.self_obj is None and b.self_obj is None and a.env is None and b.env is None:
+                return a.node is b.node      # plain functions: one object per definition
+            if a.node is not b.node:
+                return False
+            raise Undecidable('identity of bound methods / nested functions')
+        if isinstance(a, Closure) or isinstance(b, Closure):
+            return False
         raise Undecidable('identity test on %r / %r' % (a, b))
 
     def _contains(self, container, item):
@@ -797,6 +805,19 @@ class Interp(object):
                 if v.equals(value):
                     self.definitions.append((q, name, tag, atom, v))
                     return atom
+            # the same quantity modulo what this path knows to be equal (e.g. computed with one radius on the rx == ry branch)
+            sub = getattr(self.trace, 'subst', None)
+            if sub:
+                try:
+                    v2 = v.subst(sub)
+                    if not v2.equals(v) or True:
+                        for tag, value, atom in vals:
+                            if any(a in sub for a in value.atoms()) or any(a in sub for a in v.atoms()):
+                                if v2.equals(value.subst(sub)):
+                                    self.definitions.append((q, name, tag, atom, v))
+                                    return atom
+                except Undecidable:
+                    pass
         names = self.abstract.get(q)
         if not names or name not in names or not isinstance(v, Rat) or v.is_const():
             return v
@@ -1266,6 +1287,19 @@ class Interp(object):
             raise PyRaise('AttributeError', name)
         if isinstance(o, (list, tuple, dict, str, set, StrT, PolyT, Arr, Iter)):
             return bm.container_attr(self, o, name)
+        if isinstance(o, Closure):
+            # function / bound-method objects
+            if name == '__func__':
+                if o.self_obj is None:
+                    raise PyRaise('AttributeError', "'function' object has no attribute '__func__'")
+                return Closure(o.info, o.node, o.env, o.module, None, o.cls)
+            if name == '__self__':
+                if o.self_obj is None:
+                    raise PyRaise('AttributeError', "'function' object has no attribute '__self__'")
+                return o.self_obj
+            if name in ('__name__', '__qualname__') and o.info is not None:
+                return o.info.name if name == '__name__' else o.info.qualname.split('.', 1)[-1]
+            raise Undecidable('attribute %s of %r' % (name, o))
         if isinstance(o, PyRaise):
             raise Undecidable('attribute of exception object')
         if o is None:
